@@ -1011,6 +1011,8 @@ class FunctionalQuadraticPerturb(Functional):
             grad_lipschitz = func.grad_lipschitz
         else:
             grad_lipschitz = (func.grad_lipschitz + self.linear_term.norm())
+        # The quadratic term ``a * ||x||^2`` adds ``2 * a * x`` to the gradient
+        grad_lipschitz = grad_lipschitz + 2 * abs(self.__quadratic_coeff)
 
         constant = func.domain.field.element(constant)
         if constant.imag != 0:
